@@ -2,6 +2,7 @@ package props
 
 import (
 	"fmt"
+	"math"
 	"os"
 	"path/filepath"
 	"regexp"
@@ -35,8 +36,8 @@ var c27Digits = regexp.MustCompile(`[0-9]+`)
 func c27Sig(s string) string {
 	s = regexp.MustCompile("`[^`]*`|\"[^\"]*\"|'[^']*'").ReplaceAllString(s, "_")
 	s = c27Digits.ReplaceAllString(s, "N")
-	if len(s) > 70 {
-		s = s[:70]
+	if len(s) > 200 {
+		s = s[:200]
 	}
 	return strings.TrimSpace(s)
 }
@@ -77,7 +78,12 @@ func c27Check(c c27Case, r *ev.Rec) error {
 		r.Case(ev.JSONFP(c.Files), false, "known:"+c27Class(sig))
 		return nil
 	case !stableOK && expOK:
-		sig := "exp-accepts/" + c27Sig(serr.Error())
+		// classify on the message proper: the position and element name in front of it vary
+		msg := serr.Error()
+		if i := strings.LastIndex(msg, ": "); i >= 0 && !strings.Contains(msg, "cannot be used as the value type of a map") {
+			msg = msg[i+2:]
+		}
+		sig := "exp-accepts/" + c27Sig(msg)
 		if kerr := c27Report(r, sig, "the stable compiler rejects the workspace (%v), the experimental compiler accepts it (injected defect %q)\n%s", serr, c.Mutation, showFiles(c.Files)); kerr != nil {
 			return kerr
 		}
@@ -169,6 +175,7 @@ func c27Normalize(m proto.Message, all map[string]protoreflect.FileDescriptor, t
 				inner := dynamicpb.NewMessage(pmd)
 				if err := (proto.UnmarshalOptions{Resolver: types}).Unmarshal(pm.Get(md.Fields().ByName("value")).Bytes(), inner); err == nil {
 					walk(inner)
+					c27CanonNaN(inner)
 					if b, err := (proto.MarshalOptions{Deterministic: true}).Marshal(inner); err == nil {
 						pm.Set(md.Fields().ByName("value"), protoreflect.ValueOfBytes(b))
 					}
@@ -220,6 +227,54 @@ func c27Normalize(m proto.Message, all map[string]protoreflect.FileDescriptor, t
 	}
 	walk(c.ProtoReflect())
 	return c
+}
+
+// c27CanonNaN gives every NaN in float and double fields one bit pattern (the stable compiler stores Go's
+// math.NaN(), 0x7ff8000000000001, the experimental one 0x7ff8000000000000: equal values, different bytes once
+// they sit inside an Any payload).
+func c27CanonNaN(pm protoreflect.Message) {
+	canon := func(fd protoreflect.FieldDescriptor, v protoreflect.Value) (protoreflect.Value, bool) {
+		switch fd.Kind() {
+		case protoreflect.FloatKind:
+			if f := v.Float(); f != f {
+				return protoreflect.ValueOfFloat32(float32(math.NaN())), true
+			}
+		case protoreflect.DoubleKind:
+			if f := v.Float(); f != f {
+				return protoreflect.ValueOfFloat64(math.NaN()), true
+			}
+		}
+		return v, false
+	}
+	pm.Range(func(fd protoreflect.FieldDescriptor, v protoreflect.Value) bool {
+		switch {
+		case fd.IsMap():
+			mvd := fd.MapValue()
+			v.Map().Range(func(k protoreflect.MapKey, mv protoreflect.Value) bool {
+				if mvd.Message() != nil {
+					c27CanonNaN(mv.Message())
+				} else if nv, ok := canon(mvd, mv); ok {
+					v.Map().Set(k, nv)
+				}
+				return true
+			})
+		case fd.IsList():
+			for i := 0; i < v.List().Len(); i++ {
+				if fd.Message() != nil {
+					c27CanonNaN(v.List().Get(i).Message())
+				} else if nv, ok := canon(fd, v.List().Get(i)); ok {
+					v.List().Set(i, nv)
+				}
+			}
+		case fd.Message() != nil:
+			c27CanonNaN(v.Message())
+		default:
+			if nv, ok := canon(fd, v); ok {
+				pm.Set(fd, nv)
+			}
+		}
+		return true
+	})
 }
 
 func c27FindEnum(all map[string]protoreflect.FileDescriptor, name protoreflect.FullName) protoreflect.EnumDescriptor {
@@ -296,6 +351,7 @@ var c27Known = []c27KnownClass{
 	{"exp-rejects/:mismatched types", "group-field-by-type-name-in-literal"},
 	{"exp-rejects/:unsupported base for floating-point literal", "hex-integer-for-float-option"},
 	{"extension fields cannot be", "required-extension-accepted"},
+	{"cannot be used as the value type of a map", "map-value-enum-first-nonzero-accepted"},
 	{"descriptor/only:", "descriptor-encoding-details"},
 }
 
@@ -356,4 +412,83 @@ func c27PrintSurvey() {
 			}
 		}
 	}
+}
+
+// TestC27_ImportShapes enumerates import graphs: what a file may refer to through plain and public imports.
+func TestC27_ImportShapes(t *testing.T) {
+	full := ev.Pick(0, 1) == 1
+	ev.RunEnum(t, ev.Spec[c27Case]{ID: "C27", Name: "ImportShapes",
+		Rule:  "ALL import graphs over 4 files f0..f3 (each edge fi -> fj, j < i, absent, plain or public: 729 graphs), with the imports of f3 in EVERY order, each file declaring one message and f3 holding one field of the type declared by f0 (thorough: also f1's and f2's type, and both orders of f2's imports); f3 is the root; oracle as Differential: same verdict (the reference is visible or it is not: chains, diamonds, public re-exports reached first through a plain import) and equal descriptors; non-trivial = f3 does not import the referenced file directly",
+		Check: c27Check}, true, func(yield func(c27Case) bool) {
+		kinds := []string{"", "import", "import public"}
+		var perms func(xs []int) [][]int
+		perms = func(xs []int) [][]int {
+			if len(xs) <= 1 {
+				return [][]int{append([]int{}, xs...)}
+			}
+			var out [][]int
+			for i := range xs {
+				rest := append(append([]int{}, xs[:i]...), xs[i+1:]...)
+				for _, p := range perms(rest) {
+					out = append(out, append([]int{xs[i]}, p...))
+				}
+			}
+			return out
+		}
+		targets := []int{0}
+		if full {
+			targets = []int{0, 1, 2}
+		}
+		for g := 0; g < 729; g++ {
+			// edge kinds in base 3: (1,0) (2,0) (2,1) (3,0) (3,1) (3,2)
+			var edge [4][4]int
+			x := g
+			for _, e := range [][2]int{{1, 0}, {2, 0}, {2, 1}, {3, 0}, {3, 1}, {3, 2}} {
+				edge[e[0]][e[1]] = x % 3
+				x /= 3
+			}
+			imps := func(i int) []int {
+				var out []int
+				for j := 0; j < i; j++ {
+					if edge[i][j] != 0 {
+						out = append(out, j)
+					}
+				}
+				return out
+			}
+			orders2 := [][]int{imps(2)}
+			if full {
+				orders2 = perms(imps(2))
+			}
+			for _, o3 := range perms(imps(3)) {
+				for _, o2 := range orders2 {
+					for _, target := range targets {
+						files := map[string]string{}
+						for i := 0; i < 4; i++ {
+							var sb strings.Builder
+							fmt.Fprintf(&sb, "syntax = \"proto3\";\npackage p%d;\n", i)
+							order := imps(i)
+							if i == 3 {
+								order = o3
+							} else if i == 2 {
+								order = o2
+							}
+							for _, j := range order {
+								fmt.Fprintf(&sb, "%s \"f%d.proto\";\n", kinds[edge[i][j]], j)
+							}
+							fmt.Fprintf(&sb, "message T%d {", i)
+							if i == 3 {
+								fmt.Fprintf(&sb, " .p%d.T%d x = 1;", target, target)
+							}
+							sb.WriteString(" }\n")
+							files[fmt.Sprintf("f%d.proto", i)] = sb.String()
+						}
+						if !yield(c27Case{Files: files, Names: []string{"f3.proto"}, Mutation: map[bool]string{true: "indirect-reference"}[edge[3][target] == 0]}) {
+							return
+						}
+					}
+				}
+			}
+		}
+	})
 }
